@@ -872,6 +872,9 @@ def _ctor_calls(F, E, e, out):
 def run(ctx, rep):
     balance.rule_parked(ctx, rep)  # a parked caller-supplied value must be handed over before anything can unwind
     rule_init(ctx, rep)
+    from . import c05 as _c05
+
+    _c05.rule_layout(ctx, rep)  # "the given contents": every element written lands inside the block - the block is requested with the layout of the type it is filled as, for every payload shape
     from .. import guards
 
     guards.rules(ctx, rep)  # a partial-initialisation guard is a second destroyer of payload values: never after the owner exists, never ahead of the writes
